@@ -250,10 +250,26 @@ func runC03(c *ctx) {
 			}
 			env.IngestWait(batch)
 		}
+		if cfg.RowDataCompression == bs.CompressionNone && r.Chance(0.6) {
+			// legacy metadata: files written before the compression field existed carry "" (read as none)
+			files, _ := AllFiles(env.Meta)
+			for _, f := range files {
+				md := f.Metadata
+				md.DataBlocks = append([]bs.DataBlockMetadata(nil), md.DataBlocks...)
+				for i := range md.DataBlocks {
+					md.DataBlocks[i].Compression = ""
+				}
+				env.Meta.Update(context.Background(), []bs.WriteOperation{{FileMetadata: &md, FilePointerBytes: f.PointerBytes}}, nil)
+			}
+			c.r.Hit("c03.legacy-empty-compression")
+		}
 		first := env.Query(&bs.Query{})
 		for _, row := range first.Rows {
 			k, _ := json.Marshal(row)
-			expect[int(row["_id"].(float64))] = string(k)
+			expect[rowID(row)] = string(k)
+		}
+		if first.Err != nil || len(expect) != 240 {
+			c.r.Add(Finding{Kind: "violation", Check: "row-aliasing", Detail: fmt.Sprintf("a single quiet query over 240 stored rows returned %d distinct ids (err %v) with scan-buffer poisoning on: rows were read from a buffer already handed back", len(expect), first.Err), Replay: map[string]any{"group": g, "seed": c.seed, "compression": string(cfg.RowDataCompression)}})
 		}
 		var wg sync.WaitGroup
 		var mu sync.Mutex
@@ -275,7 +291,7 @@ func runC03(c *ctx) {
 				// check, then mutate everything we were given
 				for _, row := range rows {
 					k, _ := json.Marshal(row)
-					if expect[int(row["_id"].(float64))] != string(k) {
+					if expect[rowID(row)] != string(k) {
 						mu.Lock()
 						bad++
 						example = string(k)
@@ -292,7 +308,7 @@ func runC03(c *ctx) {
 		later := env.Query(&bs.Query{})
 		for _, row := range later.Rows {
 			k, _ := json.Marshal(row)
-			if expect[int(row["_id"].(float64))] != string(k) {
+			if expect[rowID(row)] != string(k) {
 				bad++
 				example = string(k)
 			}
@@ -304,4 +320,13 @@ func runC03(c *ctx) {
 		}
 		env.Stop()
 	}
+}
+
+// rowID extracts _id; a row whose _id is missing or not a number (possible only when the row's bytes were
+// overwritten) maps to -1, which no expectation holds.
+func rowID(row map[string]any) int {
+	if f, ok := row["_id"].(float64); ok {
+		return int(f)
+	}
+	return -1
 }
